@@ -331,7 +331,7 @@ def gen_multi_lf(rng, naming=None, n_lf=None, vrl=None):
     'default' (all use the default names: shared sets, D12), 'partial' (only some shared), 'origin_only' (only the ORIGIN
     set is shared: refused at write because the shared defining origin's FILE-ID cannot equal both header ids)."""
     naming = naming or rng.choice(['distinct', 'distinct', 'default', 'partial', 'origin_only'])
-    n_lf = n_lf or rng.choice([2, 2, 3])
+    n_lf = n_lf or rng.choice([2, 2, 3, 4, 5])
     vrl = vrl or rng.choice([128, 8192])
     prog = [{'op': 'newfile', 'ident': 'MAIN-STORAGE-UNIT', 'seq': 1, 'vrl': vrl}]
     per_lf = []
@@ -399,6 +399,30 @@ def gen_multi_lf(rng, naming=None, n_lf=None, vrl=None):
     # channels of one logical file must not reach another one through it
     prog.append({'op': 'write', 'data': 'dict'} if rng.random() < 0.5 else {'op': 'write'})
     return prog, naming
+
+
+def gen_many_lf(n_lf, rows=3, extra=0):
+    """n_lf logical files with their own set names, each the minimum a logical file needs (origin, one channel with data, one
+    frame) plus `extra` axes: whether a file can be written does not depend on HOW MANY logical files / objects it has."""
+    R0 = specgen
+    prog = [{'op': 'newfile', 'ident': 'MAIN-STORAGE-UNIT', 'seq': 1, 'vrl': 8192}]
+    for li in range(n_lf):
+        prog.append({'op': 'lf', 'fh_id': R0.r_str('LF-%d' % li), 'fh_seq': R0.r_int(li + 1)})
+    created = 0
+    for li in range(n_lf):
+        sn = 'LF%d' % li
+        prog.append({'op': 'origin', 'lf': li, 'name': R0.r_str('O'), 'set_name': sn, 'origin': None, '_fh_id': 'LF-%d' % li,
+                     'kw': {'file_set_number': R0.r_int(1), 'creation_time': R0.r_str('2020/01/01 00:00:00')}})
+        prog.append({'op': 'channel', 'lf': li, 'name': R0.r_str('CH'), 'set_name': sn, 'origin': None, 'kw': {},
+                     'data': {'dtype': 'float64', 'rows': rows, 'width': None, 'seed': 7 + li}})
+        prog.append({'op': 'frame', 'lf': li, 'name': R0.r_str('FR'), 'set_name': sn, 'origin': None, 'kw': {},
+                     'channels': R0.r_list([R0.r_ref(created + 1)])})
+        created += 3
+        for a in range(extra):
+            prog.append({'op': 'add', 'lf': li, 'type': 'axis', 'name': R0.r_str('AX%d' % a), 'set_name': sn, 'origin': None, 'kw': {}})
+            created += 1
+    prog.append({'op': 'write'})
+    return prog
 
 
 def gen_frames_same_names(rng):
